@@ -452,6 +452,18 @@ pub fn scale_family(kind: &str, n: usize) -> Shape {
             t = 2;
             m = 0;
         }
+        "huge-group-index" | "huge-binding-index" => {
+            // numeric attribute values: cost must not depend on the magnitude of an index (n = the index value; the
+            // group variant is refused as non-consecutive, the binding variant is accepted)
+            let idx = if n as u64 > i32::MAX as u64 { format!("{n}u") } else { n.to_string() };
+            if kind == "huge-group-index" {
+                src.push_str(&format!("@group(0) @binding(0) var<uniform> a: vec4<f32>;\n@group({idx}) @binding(0) var<uniform> b: vec4<f32>;\n"));
+            } else {
+                src.push_str(&format!("@group(0) @binding(0) var<uniform> a: vec4<f32>;\n@group(0) @binding({idx}) var<uniform> b: vec4<f32>;\n@group(1) @binding({idx}) var<uniform> c: vec4<f32>;\n"));
+            }
+            src.push_str("@compute @workgroup_size(1) fn cs_main() { let x = a.x + b.x; }\n");
+            g = 2;
+        }
         "override-diamond" | "const-diamond" => {
             // n levels of `override k_i = k_{i-1} * k_{i-1}` (each level names the previous one twice); the last one sizes
             // a workgroup, a workgroup array and is read in a function; the const variant does the same with `const`
@@ -732,6 +744,8 @@ pub fn scale_cases() -> Vec<(&'static str, usize)> {
         ("ladder-other-pc", vec![8, 24, 40]),
         ("ladder-other-binding", vec![8, 24, 40]),
         ("ladder-other-both", vec![32]),
+        ("huge-group-index", vec![1_000, 100_000_000, 4_294_967_295]),
+        ("huge-binding-index", vec![1_000, 100_000_000, 4_294_967_295]),
         ("override-diamond", vec![8, 24, 48]),
         ("const-diamond", vec![8, 24, 48]),
         ("array-nesting-1", vec![8, 24, 40, 60]),
@@ -764,7 +778,8 @@ pub fn child(kind: &str, depth: usize) -> i32 {
         }
         let t1 = thread_cpu_seconds();
         let out = generate(&sh.src, &Config::default());
-        println!("{} {:.6} {naga_s:.6}", matches!(out, Outcome::Ok(_)) as u8, thread_cpu_seconds() - t1);
+        // a typed refusal (Err) is a finished call as well; only a panic is "not Ok" here
+        println!("{} {:.6} {naga_s:.6}", matches!(out, Outcome::Ok(_) | Outcome::Err(..)) as u8, thread_cpu_seconds() - t1);
         return 0;
     }
     let s = match kind {
@@ -938,7 +953,7 @@ pub fn run(tier: &str) -> i32 {
     rep.set("scale_families", json!(scale_report));
     rep.set("wall_clock_children", json!(wall));
     rep.traces_validated = rep.evaluations;
-    rep.rule = format!("(1) every tile: DAG on <= {} helpers with each forward edge in {{absent, 1 statement call, 1 value call, 2 statement calls, 2 value calls, 1+1 mixed}}, composed {}x in series; (2) chain / diamond / 3-fold fan-in / fan-out families at depths {:?} with every call form at every placement context, plus 4-entry and 290-function members; (3) nested two-/three-member struct types to depth 24/40, wide structs, many variables sharing one type; (3b) statement shapes in one function (else-if chains, nested if / else / loop / for / switch / blocks, mixed) at sizes up to 60 under 1 and 3 entry points, block visits <= 8*E*(B+1) from the walk:block hook; (3c) ladders 40 levels deep under one entry with a push constant / binding that only another entry uses; (3d) override / const initialisers forming a 48-level diamond that sizes a workgroup and an array; (4) size families: up to 1000 bindings / 1000 members / 300 structs / 64 vertex entries x 12 structs / 200 entry points sharing helpers / 300 consts+overrides / arrays nested 16 deep (two elements per level) and 60 deep (one element per level), each under max(2 s, 50 x naga) of thread CPU time. Oracle: walk:function visits <= 8*E*(F+C+1), walk:type visits <= 8*G*(T+M+1) (hook aborts at the budget); CPU time of amplified members in child processes <= max(2 s, 200 x same-size flat shader), with a 20-30 s wall-clock cap that only a hang can reach.", 4, if thorough { 16 } else { 8 }, if thorough { vec![8, 16, 32, 64] } else { vec![16, 64] });
+    rep.rule = format!("(1) every tile: DAG on <= {} helpers with each forward edge in {{absent, 1 statement call, 1 value call, 2 statement calls, 2 value calls, 1+1 mixed}}, composed {}x in series; (2) chain / diamond / 3-fold fan-in / fan-out families at depths {:?} with every call form at every placement context, plus 4-entry and 290-function members; (3) nested two-/three-member struct types to depth 24/40, wide structs, many variables sharing one type; (3b) statement shapes in one function (else-if chains, nested if / else / loop / for / switch / blocks, mixed) at sizes up to 60 under 1 and 3 entry points, block visits <= 8*E*(B+1) from the walk:block hook; (3c) ladders 40 levels deep under one entry with a push constant / binding that only another entry uses; (3d) override / const initialisers forming a 48-level diamond that sizes a workgroup and an array; (3e) group / binding indices up to u32::MAX; (4) size families: up to 1000 bindings / 1000 members / 300 structs / 64 vertex entries x 12 structs / 200 entry points sharing helpers / 300 consts+overrides / arrays nested 16 deep (two elements per level) and 60 deep (one element per level), each under max(2 s, 50 x naga) of thread CPU time. Oracle: walk:function visits <= 8*E*(F+C+1), walk:type visits <= 8*G*(T+M+1) (hook aborts at the budget); CPU time of amplified members in child processes <= max(2 s, 200 x same-size flat shader), with a 20-30 s wall-clock cap that only a hang can reach.", 4, if thorough { 16 } else { 8 }, if thorough { vec![8, 16, 32, 64] } else { vec![16, 64] });
     rep.assumptions.push("step counts come from the verif-hooks points at the top of the two recursive walks; if a refactor removes them the wall-clock part decides alone".into());
     rep.finish()
 }
